@@ -1,14 +1,17 @@
 """C41 - known_hosts lookup, save and reload agree and loading is idempotent.
 
 Domain: generated known_hosts files (<= 15 lines): host lists of 1-4 names from {a, b, c.example, 10.0.0.1,
-[a]:2222}, plain, or hashed (`|1|salt|hmac` computed by the harness from a generated salt; one name per
-hashed line as sshd(8) prescribes), keys from the bundled pool (3 RSA, 2 ECDSA-256, 1 ECDSA-384, 2 Ed25519:
+[a]:2222}; every name of a line is plain or hashed on its own (`|1|salt|hmac` computed by the harness from a
+generated salt): all-plain lines (1-4 names), all-hashed lines (1-3 hashed names, own salt each) and lines mixing
+plain and hashed names (2-4 names); keys from the bundled pool (3 RSA, 2 ECDSA-256, 1 ECDSA-384, 2 Ed25519:
 several types per host and different keys of one type for one host), repeated hosts, multi-host lines sharing
 names with other lines, trailing comments, tab separators, comment / blank lines, lines with an unknown key
 type, a garbage or mismatching key blob, too few fields.  (Not generated: base64 with wrong padding and
 `@marker` lines - `HostKeys.load` lets `InvalidHostKey` escape for those; the statement does not cover them.)
 Histories (hypothesis RuleBasedStateMachine): load(file_i), load again, add(h, type, key), hk[h][type] = key,
-del hk[h], save + reload into a fresh object, clear.  A second part loads single generated files twice.
+del hk[h], save + reload into a fresh object, clear - in particular the SAME file loaded again on one object after
+del / add (in-place replacement or append) / SubDict assignment / clear (evidence classes
+history:same-file-loaded-again-after-*).  A second part loads single generated files twice.
 
 Oracle - relative to the saved text, hence independent of the internal entry layout: with R = harness parser
 applied to the text written by save() (an entry lists h if a plain name equals h or a hashed name's HMAC-SHA1
@@ -16,6 +19,11 @@ matches; first entry per key type wins), after every operation and for every pro
 R's key types and keys (None when R has none), check(h, k) <=> k is R's key of its type for h, `h in hk`
 agrees, HostKeys.keys() lists exactly the saved host fields.  A fresh object loaded from the saved text
 answers identically.  After loading a generated file into an empty object, R(file) itself gives the lookups.
+After EVERY load(f) - first or repeated, whatever was deleted, replaced or cleared before - load's merge holds: for each
+key line of f and each name on it, the entries listing that host (per the saved text) include that line's key, i.e. the
+entries of f that list a host are (again) entries that list it.  At the end of a history a fresh HostKeys object is taken
+through the recorded loads (same files, same order) and mutations without being looked at in between: lookups,
+HostKeys.keys() and save() text equal those of the long-lived object (which was saved and probed after every step).
 Loading a file again (no mutating operation since it was loaded) changes none of: lookups, HostKeys.keys(),
 each SubDict.keys(), save() text.  Op-local: after add() / SubDict.__setitem__ the lookup returns that key
 (add: unless a hashed entry of that host and type shadows it - add() only replaces plain names; recorded, not
@@ -38,8 +46,10 @@ PROPERTY = "C41"
 LEVEL = "exploration"
 RULE = (
     "part 1: hypothesis RuleBasedStateMachine over 1-3 generated known_hosts files and <= 14 operations "
-    "(load/load-again/add/SubDict-set/del/save+reload/clear), every step compared with a harness parser applied to the "
-    "save() output; part 2: single generated files loaded twice then saved and reloaded; non-trivial = at least one load and "
+    "(load/load-again/add/SubDict-set/del/save+reload/clear; lines with 1-3 hashed names and lines mixing plain and hashed "
+    "names; the same file loaded again after del/add/SubDict-set/clear), every step compared with a harness parser applied to the "
+    "save() output, every load checked for its merge postcondition, the final state compared with a fresh object taken through "
+    "the same loads and mutations; part 2: single generated files loaded twice then saved and reloaded; non-trivial = at least one load and "
     "the loaded files contain a multi-host line, a hashed entry or a repeated (host, key type); distinct by SHA-1 of "
     "(file specs, operation list)"
 )
@@ -76,7 +86,7 @@ _salt = st.binary(min_size=20, max_size=20)
 def _entry_st(draw):
     """One key line. Every name of the line is plain or hashed on its own: all plain (1-4 names), all hashed (1-3
     names, each with its own salt), or mixed (2-4 names, a generated plain/hashed flag per name)."""
-    form = draw(st.sampled_from(["plain", "plain", "hashed", "mixed"]))
+    form = draw(st.sampled_from(["plain", "plain", "plain", "hashed", "mixed"]))
     lo, hi = {"plain": (1, 4), "hashed": (1, 3), "mixed": (2, 4)}[form]
     hosts = draw(st.lists(st.sampled_from(HOSTS), min_size=lo, max_size=hi, unique=True))
     if form == "plain":
@@ -326,7 +336,10 @@ class Sim:
                 continue
             if contains != bool(first):
                 self.fail("lookup", "%s:contains" % what, "%s: (%r in hostkeys) is %r, lookup gives %r" % (what, h, contains, got))
-            for n in KEYNAMES if first else KEYNAMES[:1]:
+            # every pool key of a type the host has (the right key and wrong keys of that type) and one key of a type it has
+            # not (each check() is a full scan that recomputes the HMAC of every hashed name)
+            probe_keys = [n for n in KEYNAMES if ktype(n) in first] + [n for n in KEYNAMES if ktype(n) not in first][:1]
+            for n in probe_keys:
                 typ, kb, pk = pool()[n]
                 want = first.get(typ) == kb
                 try:
